@@ -470,6 +470,12 @@ func (p *Program) isEntryPoint(fn *ssa.Function) bool {
 						if op == nil || *op == nil || *op == calleeVal {
 							continue
 						}
+						if _, isMC := instr.(*ssa.MakeClosure); isMC {
+							continue // the function operand of its own MakeClosure; uses of the closure decide
+						}
+						if _, isDbg := instr.(*ssa.DebugRef); isDbg {
+							continue
+						}
 						switch v := (*op).(type) {
 						case *ssa.Function:
 							escapes[v] = true
